@@ -310,6 +310,9 @@ def h_interleave(I, fi):
             ev.append(("extend", r))
 
         def comprehension(self, I_, node, gen, fr):
+            if not I_.P.feasible(I_.P.z(L) > 0):
+                ev.append(("comp-empty",))
+                return ("result-of-comprehension",)
             s_ = alg.sym(I_.P.fresh_name("letter"), "Int")
             I_.P.assume(z3.And(I_.P.z(s_) >= 0, I_.P.z(s_) < I_.P.z(L)))
             sub = Frame(fr.module, fr.func, fr.cls)
@@ -345,6 +348,10 @@ def h_interleave(I, fi):
     dsl.cover(I, "interleave.ran")
     gens = P.ghost.get("generic_indices", [])
     kinds = [e[0] for e in ev]
+    if not gens:
+        # no list at all: the (empty) word is still shuffled and consumed; nothing is popped from a list that does not exist
+        P.check("interleave.no-lists", not P.feasible(P.z(L) != 0) and kinds == ["shuffle", "comp-empty"], "without lists the word stays empty", kind="post")
+        return
     P.check("interleave.event-order", kinds == ["extend", "shuffle", "comp-start", "pop", "comp-elt"] and len(gens) == 1,
             "the word is filled, shuffled exactly once, and only then consumed", kind="post")
     if kinds != ["extend", "shuffle", "comp-start", "pop", "comp-elt"] or len(gens) != 1:
